@@ -68,7 +68,9 @@ fn cx_fn(ctx: &Ctx, r: &mut Report) {
         ("concrete", false, "deps: &my::App", &[], false, Some("my :: App"), false),
         ("no-deps", false, "", &[], false, None, true),
     ];
-    let params: [&[(&str, &str)]; 17] = [
+    let params: [&[(&str, &str)]; 19] = [
+        &[("W(f)", "W"), ("_", "u8")],
+        &[("(a, b)", "(u8, u8)"), ("W(f)", "W"), ("k", "u8")],
         &[("x", "impl Into<u8>")],
         &[("cb", "&dyn Fn(u8) -> u8"), ("s", "&mut String")],
         &[("v", "&[&str]"), ("(a, _)", "(u8, u8)"), ("r#type", "u8")],
